@@ -148,6 +148,11 @@ func randCR(r *rng) *astits.ClockReference {
 
 func randAF(r *rng, mask int, xmask int) *astits.PacketAdaptationField {
 	a := &astits.PacketAdaptationField{DiscontinuityIndicator: r.boolean(), RandomAccessIndicator: r.boolean(), ElementaryStreamPriorityIndicator: r.boolean()}
+	if r.intn(3) == 0 { // fields guarded by a cleared flag hold values all the same (a reused struct): they are not part of the value
+		a.PCR, a.OPCR, a.SpliceCountdown = randCR(r), randCR(r), r.intn(256)
+		a.TransportPrivateData, a.TransportPrivateDataLength = r.bytes(4), 4
+		a.AdaptationExtensionField = &astits.PacketAdaptationExtensionField{LegalTimeWindowOffset: 77, PiecewiseRate: 99, SpliceType: 3, DTSNextAccessUnit: &astits.ClockReference{Base: cr33(r)}}
+	}
 	if mask&1 != 0 {
 		a.HasPCR, a.PCR = true, randCR(r)
 	}
